@@ -88,7 +88,7 @@ CHECKS['C03'] = dict(
    technique='Coq proof (refinement of the receiver machine to a three-counter abstract consumer; contract lemmas over the glue and sender machines) + differential correspondence + pipeline-mode exploration against a functional reference', ref='§5, §6 C03')
 CHECKS['C04'] = dict(
    text='Theorems: a publish un-requests every client it is sent to, the gate opens only when every tracked synchronized client has asked, clients leave the wait set only by CLOSE/timeout, a receiver '
-        'issues requests only from recv(); from any point of any run the publishes that still include a consumer are at most one plus its requests already on the wire (C04_stall_bound); the consumer sends a source at most one message per step and only on an empty poll, an out-of-band message or destroy(), so over any run its requests number at most those steps (C04_request_budget); both halves across one edge whose request channel invents nothing: frames published while the consumer is tracked <= its spending steps, and published minus sets taken <= the spending steps that handed over no set (C04_edge_flow_bound, C04_backlog_bound, C04_returns_cost_empty_polls); the relay clause: what a relay's sender replies - also when it discards - is the state of the relay's next recv() (C04_relay_passes_reply_upstream, MQGlue model compared with the real MQ); machines compared with the real classes; stalled-consumer pipelines of real filters measured in pipeline mode (bounded, flat in run length).',
+        'issues requests only from recv(); from any point of any run the publishes that still include a consumer are at most one plus its requests already on the wire (C04_stall_bound); the consumer sends a source at most one message per step and only on an empty poll, an out-of-band message or destroy(), so over any run its requests number at most those steps (C04_request_budget); both halves across one edge whose request channel invents nothing: frames published while the consumer is tracked <= its spending steps, and published minus sets taken <= the spending steps that handed over no set (C04_edge_flow_bound, C04_backlog_bound, C04_returns_cost_empty_polls); the relay clause: what the sender of a relay replies - also when it discards - is the state of the next recv() of that relay (C04_relay_passes_reply_upstream, MQGlue model compared with the real MQ); machines compared with the real classes; stalled-consumer pipelines of real filters measured in pipeline mode (bounded, flat in run length).',
    note=PROTO_NOTE + ' The edge bound is stated over a request channel that neither duplicates nor fabricates messages (hypothesis); how many requests are in flight at the moment of a stall depends on the delay hypothesis and is measured in pipeline mode (partial).',
    technique='Coq proof (local flow-control lemmas) + differential correspondence + pipeline-mode exploration', ref='§5, §6 C04')
 CHECKS['C06'] = dict(
